@@ -184,11 +184,21 @@ func C03(run *Run) {
 	rec := &Recorder{}
 	nograph := 0
 	defer func() { run.Coverage["cases_without_model_graph"] = nograph }()
-	for c := 0; c < nCases; c++ {
-		cs, _ := GenCase(r, c, GenOpts{})
+	scripted := v2AliasCases()
+	for c := 0; c < nCases+len(scripted); c++ {
+		var cs *Case
+		var reqs []Req
+		if c < nCases {
+			cs, _ = GenCase(r, c, GenOpts{})
+		} else {
+			cs, reqs = scripted[c-nCases].cs, scripted[c-nCases].reqs // the documented alias shape, enumerated
+		}
 		stored, ctxt := cs.Tuples, []Tuple(nil)
-		if c%2 == 1 { // part of the tuples travel with the requests as contextual tuples
+		if c%2 == 1 && c < nCases { // part of the tuples travel with the requests as contextual tuples
 			stored, ctxt = splitTuples(r, cs)
+		}
+		if reqs == nil {
+			reqs = GenRequests(r, cs, perCase)
 		}
 		if err := v.Base.Setup(ctx, cs.Model, stored); err != nil {
 			run.Inconclusive("setup failed: %v", err)
@@ -208,7 +218,7 @@ func C03(run *Run) {
 		se.Tuples = normTuples(stored)
 		rec.Setup(se)
 		sv2 := v.Get("server:v2")
-		for _, q := range GenRequests(r, cs, perCase) {
+		for _, q := range reqs {
 			v1 := &CheckEv{Eng: "v1:default", O: q.O, R: q.R, U: q.U, Ctx: q.Ctx, Ctxt: ctxt}
 			v.Base.RunCheck(ctx, v1, ts, mg)
 			for _, eng := range []string{"v2:default", "v2:weight2", "v2:recursive", "server:v2"} {
@@ -286,8 +296,8 @@ func replayC03(run *Run) {
 	v1 := &CheckEv{Eng: "v1:default", O: q.O, R: q.R, U: q.U, Ctx: q.Ctx, Ctxt: ev.Ctxt}
 	v.Base.RunCheck(ctx, v1, ts, mg)
 	was := ev.Got
-	if ev.Eng == "server:v2" {
-		v.Get("server:v2").RunCheck(ctx, &ev.CheckEv, ts, mg)
+	if strings.HasPrefix(ev.Eng, "server:") {
+		v.Get(ev.Eng).RunCheck(ctx, &ev.CheckEv, ts, mg)
 	} else {
 		v.Base.RunCheck(ctx, &ev.CheckEv, ts, mg)
 	}
